@@ -45,6 +45,16 @@ fn main() {
                 println!("REPLAY verdict={}", if bad { "VIOLATED" } else { "ok" });
                 std::process::exit(if bad { 1 } else { 0 });
             }
+            if args[2].contains("::poly") {
+                let words: Vec<u64> = args[3..]
+                    .iter()
+                    .map(|a| u64::from_str_radix(a.trim_start_matches("0x"), 16).expect("hex"))
+                    .collect();
+                if let Some(bad) = mon::poly::replay(&args[2], &words) {
+                    println!("REPLAY verdict={}", if bad { "VIOLATED" } else { "ok" });
+                    std::process::exit(if bad { 1 } else { 0 });
+                }
+            }
             let reg = Registry::build();
             let Some(i) = reg.find(&args[2]) else {
                 println!("REPLAY unknown op {}", args[2]);
